@@ -404,7 +404,7 @@ def generate():
                    s["start"], s["stop"], s["tol_arg"], s["tol_slot"], s["gen_arg"],
                    coq_bool(s["res_is_trial"]), coq_bool(s["tol_passed"]), coq_bool(s["final_last"]),
                    coq_bool(c["guard"]), coq_bool(c["rerun"]), coq_bool(s["fresh"])))
-    except Unsupported as e:
+    except (Unsupported, ValueError, TypeError, IndexError, KeyError, AttributeError, AssertionError, RecursionError) as e:   # any surprise in the source = fail closed
         return failed("ABCGen", str(e)) + FALLBACK
     except Exception as e:      # any surprise in the source is a translation failure, never a guess
         return failed("ABCGen", "%s: %s" % (type(e).__name__, e)) + FALLBACK
